@@ -118,7 +118,7 @@ func c04Run(c *mon.Ctx, csAny any) {
 		c.Count("history-cases")
 		c.Count("move:" + cs.Move.Via)
 
-		e = cs.Move.From.Build()
+		e = cs.Move.Start()
 		// serialise the old value through every view
 		_, _, _, _ = e.Encode(), e.EncodeUncompressed(), e.XCoordinate(), e.Hex()
 		_, _ = e.MarshalBinary()
